@@ -89,6 +89,8 @@ def _mixed(i):
 
 LABELINGS = {
     "int": lambda: Labeling("int", lambda i: i),
+    # 0-based ids: the falsy node id 0 (and instant 0) must be treated like any other
+    "zero": lambda: Labeling("zero", lambda i: i - 1),
     "int_rev": lambda: Labeling("int_rev", lambda i: 100 - i, shift=0, swap_undirected=True),
     "neg": lambda: Labeling("neg", lambda i: -i * 3, shift=-7),
     "big": lambda: Labeling("big", lambda i: 10 ** 9 + i, shift=10 ** 6),
